@@ -279,6 +279,18 @@ func w3() uint64 {
                 viol("C05: a type nested in a type is printed so that it reads back as several arguments of the outer constructor",
                      {"proto": "c05-types", "package": tsrc, "emitted": ttext[:1500]}, "every type constructor applied to as many arguments as it has", trep[1])
         shutil.rmtree(troot, ignore_errors=True)
+        # ---- blocks nested in statement lists (the repaired finding nontail-block-scope and the regression probes of C01): the brackets
+        #      goose prints around a nested block decide where its bindings end
+        for wpath in sorted(glob.glob(os.path.join(C.VERIF, "findings", "C01-fixed", "*.go"))):
+            wfiles, wcalls = c01.witness_package(wpath)
+            wr = k4.run_package(wfiles, wcalls, os.path.join(scratch, "wb"))
+            stats["block_nesting_functions"] += len(wcalls)
+            if wr["parse_error"]:
+                viol("C05: nested blocks — the emitted file cannot be read back", {"proto": "c05-witness", "file": wpath}, "well-formed", wr["parse_error"])
+            for mm in wr["mismatches"]:
+                viol("C05: the nesting read from the emitted text is not the nesting of the Go source (a block nested in a statement list)",
+                     {"proto": "c05-witness", "file": wpath, "function": mm["fn"], "go_source": k4.func_source(wfiles, mm["fn"]), "emitted": k4.emitted_def(wr["text"], mm["fn"])},
+                     {"go": mm["go"]}, {"gooselang": mm["gl"]})
         # ---- import paths are text from the source too: every component of a Require line must be a Coq identifier
         for odd in ("1x~y", "a+b", "v2.0-rc1"):
             ipk = {odd: {"f.go": "package xy\n\nfunc F() uint64 {\n\treturn 1\n}\n"},
